@@ -3,7 +3,7 @@ From Coq Require Import List String.
 From VQ.Gen Require Import p_mask.
 Import ListNotations.
 Open Scope string_scope.
-Lemma pin_p_mask : p_mask =
+Definition pinned_p_mask : list string :=
   ["lens_to_mask:seq < lens[:, None] ; seq=torch.arange(max_length, device=lens.device)";
    "EuclideanCodebook.forward:mask = repeat(mask, 'b n -> c (b h n)', c=flatten.shape[0], h=flatten.shape[-2] // (mask.shape[0] * mask.shape[1]))";
    "EuclideanCodebook.forward:embed_onehot[~mask] = 0.0";
@@ -36,4 +36,5 @@ Lemma pin_p_mask : p_mask =
    "lfq.forward:input_for_entropy = original_input[mask]";
    "lfq.forward:sampled_input = input_for_entropy[rand_mask]";
    "lfq.forward:commit_loss = commit_loss[mask]"].
+Lemma pin_p_mask : p_mask = pinned_p_mask.
 Proof. reflexivity. Qed.
